@@ -10,6 +10,10 @@ pub mod rt {
 pub use rt::Type as RuntimeType;
 #[verifier::external_body] pub struct FileOrLib { x: usize }
 impl Clone for FileOrLib { #[verifier::external_body] fn clone(&self) -> (r: Self) ensures r == *self { unimplemented!() } }
+// (derive(Hash, Eq, PartialEq) of the real type: opaque here, lawful by assumption where a table keyed by it is read)
+impl core::hash::Hash for FileOrLib { #[verifier::external_body] fn hash<H: core::hash::Hasher>(&self, state: &mut H) { unimplemented!() } }
+impl PartialEq for FileOrLib { #[verifier::external_body] fn eq(&self, other: &Self) -> (r: bool) ensures r == (*self == *other) { unimplemented!() } }
+impl Eq for FileOrLib {}
 // D-msg: errors are opaque values that remember the span they were built with (ghost accessor)
 #[verifier::external_body] pub struct Error { x: usize }
 impl Error { pub uninterp spec fn span(&self) -> Span; }
